@@ -1135,6 +1135,228 @@ Section Chain.
 
 End Chain.
 
+(* ================================================================== 5. the extending write *)
+(* the part of one iteration of write_loop after the position has been resolved to
+   x = (cursor, (block, offset in block, room in block)) - the text of the model *)
+Definition wl_tail (fu fi vi : nat) (data : list N) (x : (N * N) * (N * N * N)) : M unit :=
+  let '(cur', (blk, boff, bavail)) := x in
+  let to_copy := N.min bavail (N.of_nat (length data)) in
+  (if (boff =? 0) && (to_copy =? bavail) then blank_mut blk
+   else _ <- cache_read blk ;; ret tt) ;;;
+  cache_modify (fun b => set_bytes b boff (firstn (N.to_nat to_copy) data)) ;;;
+  write_back ;;;
+  f1 <- get_file fi ;;
+  let new_offset := f_offset f1 + to_copy in
+  let e1 := if e_size (f_entry f1) <? new_offset then set_e_size (f_entry f1) new_offset else f_entry f1 in
+  put_file fi (set_f_offset (set_f_entry (set_f_cur_cluster (set_f_cur_off f1 (fst cur')) (snd cur')) e1) new_offset) ;;;
+  write_loop fu fi vi (skipn (N.to_nat to_copy) data).
+
+Lemma write_loop_unfold fu fi vi data s : data <> [] ->
+  write_loop (S fu) fi vi data s =
+  (f <- get_file fi ;;
+   let fstart := e_cluster (f_entry f) in
+   '(cur, r) <- find_data_on_disk vi (f_cur_off f, f_cur_cluster f) fstart (f_offset f) ;;
+   x <- match r with
+        | inl vars => ret (cur, vars)
+        | inr EndOfFile =>
+            a <- try (alloc_cluster vi (Some (snd cur)) false) ;;
+            match a with
+            | inr _ => fail DiskFull
+            | inl _ =>
+                '(cur2, r2) <- find_data_on_disk vi cur fstart (f_offset f) ;;
+                match r2 with
+                | inl vars => ret (cur2, vars)
+                | inr _ => fail AllocationError
+                end
+            end
+        | inr e => fail e
+        end ;;
+   wl_tail fu fi vi data x) s.
+Proof. intros H. destruct data as [|x t]; [congruence|]. reflexivity. Qed.
+
+Theorem wl_tail_spec fu fi vi f data cur' blk boff s :
+  nth_error (s_files s) fi = Some f -> no_faults s -> cache_ok s ->
+  length (disk_get (s_disk s) blk) = 512%nat -> boff < 512 ->
+  let tc := N.min (512 - boff) (N.of_nat (length data)) in
+  exists s',
+    wl_tail fu fi vi data (cur', (blk, boff, 512 - boff)) s =
+      write_loop fu fi vi (skipn (N.to_nat tc) data) s' /\
+    s_disk s' = disk_set (s_disk s) blk
+                  (set_bytes (disk_get (s_disk s) blk) boff (firstn (N.to_nat tc) data)) /\
+    s_files s' = list_set (s_files s) fi (wr_file f cur' tc) /\
+    cache_ok s' /\ no_faults s' /\ same_but_files s s'.
+Proof.
+  intros Hfi Hnf Hc Hlen Hboff tc.
+  destruct (write_block_step blk boff data s Hnf Hc Hlen Hboff) as (s2 & Hw & Hd2 & _ & Hc2 & Hnf2 & Hm2).
+  cbv zeta in Hw, Hd2. fold tc in Hw, Hd2.
+  exists (upd_file s2 fi (wr_file f cur' tc)).
+  assert (Hfiles2 : s_files s2 = s_files s) by exact (same_mgr_files _ _ Hm2).
+  split.
+  { unfold wl_tail. cbv beta iota zeta. fold tc.
+    rewrite seq_assoc3. rewrite (bind_ok _ _ _ _ _ Hw).
+    rewrite (bind_ok _ _ _ _ _ (get_file_some fi f s2 ltac:(rewrite Hfiles2; exact Hfi))).
+    rewrite put_file_ok'. reflexivity. }
+  split; [cbn; exact Hd2|]. split; [cbn; rewrite Hfiles2; reflexivity|].
+  split; [exact Hc2|]. split; [exact Hnf2|].
+  apply (sbf_trans _ s2); [apply sbf_of_same_mgr; exact Hm2|apply sbf_upd].
+Qed.
+
+(* the volume record after an allocation: same geometry, new free-space bookkeeping *)
+Definition vol_rebook (v : vol) (nf fc : option N) : vol := set_v_free (set_v_next_free v nf) fc.
+
+Lemma vol_ok_rebook v nf fc : vol_ok v -> vol_ok (vol_rebook v nf fc).
+Proof. intros [H1 H2 H3 H4]. constructor; assumption. Qed.
+
+Lemma chain_of_rebook d v nf fc : forall f c, chain_of d (vol_rebook v nf fc) c f = chain_of d v c f.
+Proof. induction f as [|f IH]; intros c; [reflexivity|]. cbn [chain_of]. rewrite IH. reflexivity. Qed.
+
+Lemma file_bytes_snoc d v ch c : file_bytes d v (ch ++ [c]) = file_bytes d v ch ++ cluster_bytes d v c.
+Proof. unfold file_bytes. rewrite flat_map_app. cbn [flat_map]. rewrite app_nil_r. reflexivity. Qed.
+
+Definition same_tables (s s' : st) : Prop :=
+  s_dirs s' = s_dirs s /\ s_next_id s' = s_next_id s /\ s_clock s' = s_clock s /\
+  s_lock s' = s_lock s /\ s_maxv s' = s_maxv s /\ s_maxd s' = s_maxd s /\ s_maxf s' = s_maxf s /\
+  s_faults s' = s_faults s.
+Lemma same_tables_of_sbf s s' : same_but_files s s' -> same_tables s s'.
+Proof. intros (_ & H). exact H. Qed.
+Lemma same_tables_trans a b c : same_tables a b -> same_tables b c -> same_tables a c.
+Proof.
+  unfold same_tables.
+  intros (A2 & A4 & A5 & A6 & A7 & A8 & A9 & A10) (B2 & B4 & B5 & B6 & B7 & B8 & B9 & B10).
+  repeat split; congruence.
+Qed.
+
+(* What the extending write needs from `alloc_cluster vi (Some cl) false` run in s1 and
+   returning c in s2 (cl = the last cluster of the chain ch of the file starting at first):
+   the chain is now ch ++ [c], no block of the old clusters changed, the volume record differs
+   in the free-space bookkeeping only, the state predicates hold.  (PrAllocEffect.v proves the
+   effect of alloc_cluster on the FAT - c was free, c is now end-of-chain, cl links to c, every
+   other entry and every non-FAT block is unchanged - from which these fields follow.) *)
+Record ext_eff (vi : nat) (v : vol) (first : N) (ch : list N) (s1 : st) (c : N) (s2 : st) : Prop :=
+  mk_ext_eff {
+  xe_vol : exists nf fc, s_vols s2 = list_set (s_vols s1) vi (vol_rebook v nf fc);
+  xe_chain : exists fuel, chain_of (s_disk s2) v first fuel = Some (ch ++ [c]);
+  xe_nf : no_faults s2;
+  xe_cache : cache_ok s2;
+  xe_wf : blocks_wf (s_disk s2);
+  xe_files : s_files s2 = s_files s1;
+  xe_data : forall c0 b, In c0 ch -> In b (cluster_blocks v c0) ->
+            disk_get (s_disk s2) b = disk_get (s_disk s1) b;
+  xe_tables : same_tables s1 s2
+}.
+
+Lemma mul_bpc_mod512 k spc : (k * (spc * 512)) mod 512 = 0.
+Proof. rewrite N.mul_assoc. apply N.mod_mul. lia. Qed.
+
+(* 5. one iteration of write_loop at the very end of the chain: EndOfFile from the first
+   lookup with the cursor on the LAST cluster cl, alloc_cluster (Some cl), second lookup on
+   the extended chain, then the write goes to the first block of the new cluster c *)
+Theorem write_one_chunk_extend v D first fuel0 ch fu fi vi f data s cl :
+  vol_ok v -> 0 < v_spc v -> chain_of D v first fuel0 = Some ch ->
+  nth_error (s_vols s) vi = Some v -> nth_error (s_files s) fi = Some f ->
+  s_disk s = D -> no_faults s -> cache_ok s ->
+  e_cluster (f_entry f) = first ->
+  cursor_ok v ch (f_cur_off f, f_cur_cluster f) \/ f_offset f < f_cur_off f ->
+  f_offset f = N.of_nat (length ch) * bytes_per_cluster v -> f_offset f < U32 -> data <> [] ->
+  nth_error ch (length ch - 1) = Some cl ->
+  (forall s1, ro_step s s1 ->
+     exists c s2, alloc_cluster vi (Some cl) false s1 = (Ok c, s2) /\ ext_eff vi v first ch s1 c s2) ->
+  let tc := N.min 512 (N.of_nat (length data)) in
+  let chunk := firstn (N.to_nat tc) data in
+  exists s1 c s2 s',
+    ro_step s s1 /\ alloc_cluster vi (Some cl) false s1 = (Ok c, s2) /\ ext_eff vi v first ch s1 c s2 /\
+    write_loop (S fu) fi vi data s = write_loop fu fi vi (skipn (N.to_nat tc) data) s' /\
+    s_disk s' = disk_set (s_disk s2) (cluster_first_block v c)
+                  (set_bytes (disk_get (s_disk s2) (cluster_first_block v c)) 0 chunk) /\
+    file_bytes (s_disk s') v (ch ++ [c]) =
+      set_bytes (file_bytes (s_disk s2) v (ch ++ [c])) (f_offset f) chunk /\
+    file_bytes (s_disk s2) v ch = file_bytes D v ch /\
+    s_files s' = list_set (s_files s) fi (wr_file f (f_offset f, c) tc) /\
+    cursor_ok v (ch ++ [c]) (f_offset f, c) /\
+    s_vols s' = s_vols s2 /\ blocks_wf (s_disk s') /\
+    cache_ok s' /\ no_faults s' /\ same_tables s s'.
+Proof.
+  intros Hv Hspc Hch Hvi Hfi Hd Hnf Hc Hfirst Hcur Hoff H32 Hdata Hcl Halloc tc chunk.
+  set (B := bytes_per_cluster v) in *.
+  assert (HB : 0 < B) by (unfold B, bytes_per_cluster; lia).
+  destruct (find_data_on_disk_eof v D first fuel0 ch Hv Hspc Hch vi (f_cur_off f, f_cur_cluster f)
+              (f_offset f) s Hvi Hd Hnf Hc Hcur Hoff H32) as (cl' & s1 & Hn1 & Hrun1 & Hro1).
+  rewrite Hcl in Hn1. inversion Hn1; subst cl'. clear Hn1.
+  destruct (Halloc s1 Hro1) as (c & s2 & Ha & Heff).
+  exists s1, c, s2.
+  destruct Heff as [(nf & fc & Hvols2) (fuel2 & Hch2) Hnf2 Hc2 Hwf2 Hfiles2 Hdata2 Htab2].
+  pose proof (mk_ext_eff vi v first ch s1 c s2 (ex_intro _ nf (ex_intro _ fc Hvols2))
+                (ex_intro _ fuel2 Hch2) Hnf2 Hc2 Hwf2 Hfiles2 Hdata2 Htab2) as Heff.
+  set (v' := vol_rebook v nf fc).
+  assert (Hvi1 : nth_error (s_vols s1) vi = Some v)
+    by (apply (same_mgr_vol s s1); [apply Hro1|exact Hvi]).
+  assert (Hvi2 : nth_error (s_vols s2) vi = Some v')
+    by (rewrite Hvols2; eapply nth_error_list_set_same; exact Hvi1).
+  assert (Hlen : (0 < length ch)%nat) by (assert (length ch - 1 < length ch)%nat by (apply nth_error_Some; congruence); lia).
+  assert (Hch2' : chain_of (s_disk s2) v' first fuel2 = Some (ch ++ [c]))
+    by (unfold v'; rewrite chain_of_rebook; exact Hch2).
+  assert (Hcur2 : cursor_ok v' (ch ++ [c]) (N.of_nat (length ch - 1) * B, cl)).
+  { exists (length ch - 1)%nat. split; [reflexivity|]. cbn [snd].
+    rewrite nth_error_app1 by lia. exact Hcl. }
+  assert (Hin2 : f_offset f < N.of_nat (length (ch ++ [c])) * bytes_per_cluster v').
+  { change (bytes_per_cluster v') with B. rewrite app_length. cbn [length].
+    replace (length ch + 1)%nat with (S (length ch)) by lia. rewrite of_nat_succ_mul. lia. }
+  destruct (find_data_on_disk_spec v' (s_disk s2) first fuel2 (ch ++ [c]) (vol_ok_rebook v nf fc Hv)
+              Hspc Hch2' vi (N.of_nat (length ch - 1) * B, cl) (f_offset f) s2 Hvi2 eq_refl Hnf2 Hc2
+              (or_introl Hcur2) Hin2 H32) as (cj & s3 & Hn3 & Hrun3 & Hro3).
+  change (bytes_per_cluster v') with B in Hn3, Hrun3.
+  change (cluster_first_block v' cj) with (cluster_first_block v cj) in Hrun3.
+  assert (E1 : f_offset f / B = N.of_nat (length ch)) by (rewrite Hoff; apply N.div_mul; lia).
+  assert (E2 : f_offset f mod B = 0) by (rewrite Hoff; apply N.mod_mul; lia).
+  assert (E3 : f_offset f mod 512 = 0) by (rewrite Hoff; unfold B, bytes_per_cluster; apply mul_bpc_mod512).
+  rewrite E1, Nat2N.id in Hn3. rewrite nth_error_app2, Nat.sub_diag in Hn3 by lia.
+  cbn [nth_error] in Hn3. inversion Hn3; subst cj. clear Hn3.
+  rewrite E1, E2, E3, <- Hoff in Hrun3.
+  change (0 / 512) with 0 in Hrun3. change (512 - 0) with 512 in Hrun3. rewrite N.add_0_r in Hrun3.
+  destruct Hro3 as (Hd3 & Hc3 & Hnf3 & Hm3).
+  assert (Hfiles3 : s_files s3 = s_files s).
+  { rewrite (same_mgr_files _ _ Hm3), Hfiles2. apply same_mgr_files. apply Hro1. }
+  destruct (wl_tail_spec fu fi vi f data (f_offset f, c) (cluster_first_block v c) 0 s3
+              ltac:(rewrite Hfiles3; exact Hfi) Hnf3 Hc3 ltac:(rewrite Hd3; apply Hwf2) ltac:(lia))
+    as (s' & Htail & Hd' & Hfiles' & Hc' & Hnf' & Hm').
+  cbv zeta in Htail, Hd', Hfiles'. change (512 - 0) with 512 in Htail, Hd', Hfiles'.
+  fold tc in Htail, Hd', Hfiles'. fold chunk in Hd'. rewrite Hd3 in Hd'.
+  exists s'. split; [exact Hro1|]. split; [exact Ha|]. split; [exact Heff|].
+  split.
+  { rewrite (write_loop_unfold fu fi vi data s Hdata).
+    rewrite (bind_ok _ _ _ _ _ (get_file_some fi f s Hfi)). cbv zeta. rewrite Hfirst.
+    rewrite (bind_ok _ _ _ _ _ Hrun1). cbv beta iota. cbn [snd].
+    rewrite bind_bind. rewrite (bind_ok _ _ _ _ _ (try_ok _ _ _ _ Ha)). cbv beta iota.
+    fold B. rewrite bind_bind. rewrite (bind_ok _ _ _ _ _ Hrun3). cbv beta iota. rewrite bind_ret.
+    exact Htail. }
+  split; [exact Hd'|].
+  split.
+  { rewrite Hd'.
+    pose proof (write_chunk_file_bytes v (s_disk s2) first fuel2 (ch ++ [c]) Hspc Hch2
+                  (f_offset f) c chunk Hwf2) as W.
+    fold B in W. rewrite E1, E2, E3, Nat2N.id in W.
+    change (0 / 512) with 0 in W. rewrite N.add_0_r in W.
+    apply W.
+    - rewrite nth_error_app2, Nat.sub_diag by lia. reflexivity.
+    - unfold chunk. rewrite firstn_length. unfold tc. lia. }
+  split.
+  { apply file_bytes_frame. intros c0 b Hc0 Hb. rewrite (Hdata2 c0 b Hc0 Hb).
+    rewrite (proj1 Hro1), Hd. reflexivity. }
+  split; [rewrite Hfiles', Hfiles3; reflexivity|].
+  split.
+  { exists (length ch). cbn [fst snd]. split; [exact Hoff|].
+    rewrite nth_error_app2, Nat.sub_diag by lia. reflexivity. }
+  split; [rewrite (proj1 Hm'); apply Hm3|].
+  split.
+  { rewrite Hd'. apply blocks_wf_set; [exact Hwf2|]. rewrite set_bytes_length; [apply Hwf2|].
+    rewrite Hwf2. unfold chunk. rewrite firstn_length. unfold tc. cbn [N.to_nat]. lia. }
+  split; [exact Hc'|]. split; [exact Hnf'|].
+  apply (same_tables_trans _ s3); [|apply same_tables_of_sbf; exact Hm'].
+  apply (same_tables_trans _ s2); [|apply same_tables_of_sbf; apply sbf_of_same_mgr; exact Hm3].
+  apply (same_tables_trans _ s1); [|exact Htab2].
+  apply same_tables_of_sbf. apply sbf_of_same_mgr. apply Hro1.
+Qed.
+
 (* ------------------------------------------------------------------ the hypotheses are satisfiable *)
 (* PrDir's FAT16 volume (2 blocks per cluster) whose chain 2 -> 3 -> end is now a file of 1500
    bytes, open with handle 7 at offset 700, cursor on the first cluster *)
@@ -1185,6 +1407,47 @@ Proof.
   split; [vm_compute; reflexivity|]. split; vm_compute; reflexivity.
 Qed.
 
+(* the allocation premise of write_one_chunk_extend is satisfiable: the same file, full
+   (2048 bytes = 2 clusters) with the offset at its end; the model's alloc_cluster run after
+   the first lookup hands out cluster 4 and has the effect ext_eff *)
+Lemma blocks_wf_elements d :
+  forallb (fun p => Nat.eqb (length (snd p)) 512) (PositiveMap.elements d) = true -> blocks_wf d.
+Proof.
+  intros H i. unfold disk_get. destruct (PositiveMap.find (N.succ_pos i) d) as [b|] eqn:E;
+    fold block in E; rewrite E; [|unfold zero_block; apply repeat_length].
+  apply PositiveMap.elements_correct in E. rewrite forallb_forall in H.
+  specialize (H _ E). apply Nat.eqb_eq in H. exact H.
+Qed.
+
+Definition exr_file_end : fileinfo :=
+  mk_fileinfo 7 0 0 2 2048 ReadWriteAppend (set_e_size exr_entry 2048) false.
+Definition exr_state_end : st :=
+  mk_st exd_disk zero_block None [exd_vol] [] [exr_file_end] 8 0 0 [] [] false 1 1 1.
+Definition exr_s1 : st := snd (find_data_on_disk 0 (0, 2) 2 2048 exr_state_end).
+
+Example ext_example :
+  fst (find_data_on_disk 0 (0, 2) 2 2048 exr_state_end) = Ok ((1024, 3), inr EndOfFile) /\
+  fst (alloc_cluster 0 (Some 3) false exr_s1) = Ok 4 /\
+  ext_eff 0 exd_vol 2 [2; 3] exr_s1 4 (snd (alloc_cluster 0 (Some 3) false exr_s1)) /\
+  fst (write_loop 3 0 0 [1; 2; 3] exr_state_end) = Ok tt /\
+  firstn 5 (skipn 2046 (file_bytes (s_disk (snd (write_loop 3 0 0 [1; 2; 3] exr_state_end)))
+                           exd_vol [2; 3; 4])) = [0; 0; 1; 2; 3].
+Proof.
+  split; [vm_compute; reflexivity|]. split; [vm_compute; reflexivity|].
+  split; [|split; vm_compute; reflexivity].
+  constructor.
+  - eexists. eexists. vm_compute. reflexivity.
+  - exists 10%nat. vm_compute. reflexivity.
+  - intros n H. vm_compute in H. destruct H.
+  - intros i H. vm_compute in H. inversion H; subst i. vm_compute. reflexivity.
+  - apply blocks_wf_elements. vm_compute. reflexivity.
+  - vm_compute. reflexivity.
+  - intros c0 b Hc0 Hb.
+    destruct Hc0 as [<-|[<-|[]]]; vm_compute in Hb;
+      repeat (destruct Hb as [<-|Hb]; [vm_compute; reflexivity|]); destruct Hb.
+  - unfold same_tables. vm_compute. repeat split; reflexivity.
+Qed.
+
 Print Assumptions find_data_on_disk_spec.
 Print Assumptions find_data_on_disk_eof.
 Print Assumptions write_block_step.
@@ -1192,7 +1455,10 @@ Print Assumptions write_one_chunk_in_place.
 Print Assumptions C01_isolation_step.
 Print Assumptions write_chunk_file_bytes.
 Print Assumptions C01_write_step_bytes.
+Print Assumptions wl_tail_spec.
+Print Assumptions write_one_chunk_extend.
 Print Assumptions read_one_chunk.
 Print Assumptions read_loop_spec.
 Print Assumptions mgr_read_spec.
 Print Assumptions rw_example.
+Print Assumptions ext_example.
